@@ -13,6 +13,12 @@ CLAIMED["C10"] = dict(tech="exhaustive enumeration of the boundary product + pro
 CLAIMED["C14"] = dict(tech="property-based testing (rapid) + enumeration of all truncation points + structured hostile-input families, in crash-isolated worker processes; native go fuzzing in the thorough tier",
       text="Generated-input search for totality: every byte prefix of the repository's 86 test modules (size-limited per tier), token-level mutations of them, a parameterised family of pathological modules (nesting depth, argument counts, unterminated strings/comments, cycles among typedefs/groupings/identities/leafrefs/imports/includes, wrong-kind paths, malformed restriction/feature/when arguments), opener faults, and token soup. Each load must return a module or an error; a returned module is walked through every public accessor. Workers journal each case so a fatal error or hang is attributed and confirmed in a fresh process.",
       note="A hang is a case that does not finish in 15 s alone in a fresh process (normal cases take < 5 ms). The walk covers the compiled schema tree, typedefs, identities, features, extensions; raw grouping/augment templates and the library's schema browser are not walked (see DESIGN.md Corrections).", ref="7 C14")
+CLAIMED["C04"] = dict(tech="property-based testing (rapid): generated schema + data tree, export into a recording reference store and JSON round trip through an independent decoder",
+      text="Generated-input search: schemas over all node kinds and leaf types with nested lists, compound keys, choices and defaults, conforming trees with boundary values; the tree is exported into a recording reference store (every node exactly once, schema order, nothing extra except optional defaults), written as JSON (compact/pretty, qualified or not), decoded with encoding/json, re-read with the library's reader and exported again (twice, for idempotence).",
+      note="Trusts the harness reference store and encoding/json. Reads may or may not report the default of an unset leaf (both accepted). decimal64 values have <= 6 significant digits.", ref="7 C04")
+CLAIMED["C03"] = dict(tech="property-based testing (rapid) against a harness reference model of the keyed deep merge, with direct inspection of the stores' backing Go data",
+      text="Generated-input search: target and source are overlapping sub-samples of one generated universe tree; strategy x entry point (root, container, list, list entry) x XFrom/XInto x source store (reference, JSON reader) x target store (reference store, map-backed nodeutil.Reflect, map-backed nodeutil.Node). The expected tree or the expected error class (conflict / not-found) comes from the harness merge model; after a failure, paths the source does not mention must be unchanged.",
+      note="Case switches are only asserted for upsert. Map-backed stores are compared as keyed sets (Go maps have no insertion order) and are generated with single keys of the types the stores can hold.", ref="7 C03")
 NOT_YET = {}
 props = [json.loads(l) for l in open(os.path.join(ROOT, "properties.jsonl"))]
 checks, na = [], []
